@@ -30,6 +30,11 @@ func (P) Facts() []core.Fact {
 	for k, v := range v2transport.VerifConstsC19() {
 		fs = append(fs, core.Fact{Name: k, Value: v})
 	}
+	var v1 []int64
+	for _, b := range v2transport.VerifV1Prefix(0xd9b4bef9) {
+		v1 = append(v1, int64(b))
+	}
+	fs = append(fs, core.Fact{Name: "v1PrefixMainnet", Value: v1})
 	return fs
 }
 
